@@ -81,6 +81,10 @@ def gamma (k : Nat) (dbl : Bool) : Rat :=
 
 def sumL (l : List Rat) : Rat := l.foldl (· + ·) 0
 
+/-- absolute slack for gradual underflow: `k` operations, each off by at most one least subnormal
+(relative bounds are meaningless below the normal range) -/
+def uflow (k : Nat) (dbl : Bool) : Rat := (k : Rat) * (if dbl then pow2 (-1074) else pow2 (-149))
+
 section generic
 variable {K : Type} [Inhabited K] [Zero K] [One K] [Add K] [Sub K] [Mul K] [Div K] [Conj K] [BEq K]
 
@@ -97,11 +101,12 @@ def certSolve (o : Ops K) (P n : Nat) (M : Array (Array K)) (unit : Bool) (x b :
       if j = i then (if unit then [] else o.parts (x.getD i default * at2 M i i)) else o.prods (at2 M i j) (x.getD j default))
 
 /-- first row whose residual `b - M x` exceeds `g * (|M||x| + |b|)` -/
-def residFail (o : Ops K) (n : Nat) (M : Array (Array K)) (x b : Array K) (g : Rat) : Option Nat :=
+def residFail (o : Ops K) (n : Nat) (M : Array (Array K)) (x b : Array K) (g : Rat) (dbl : Bool) : Option Nat :=
   (List.range n).find? fun i =>
     let r := (List.range n).foldl (fun acc j => acc - at2 M i j * x.getD j default) (b.getD i default)
     let bd := (List.range n).foldl (fun acc j => acc + o.mag (at2 M i j) * o.mag (x.getD j default)) (o.mag (b.getD i default))
-    decide (o.cmax r > g * bd)
+    let rowm := (List.range n).foldl (fun acc j => acc + o.mag (at2 M i j)) (1 : Rat)
+    decide (o.cmax r > g * bd + uflow (8 * n + 16) dbl * rowm)
 
 def eqArr (a b : Array K) (n : Nat) : Option Nat := (List.range n).find? fun i => !(a.getD i default == b.getD i default)
 
@@ -165,7 +170,7 @@ def handleTrsv (o : Ops K) (c : Case) : Res :=
       let nontriv := n ≥ 2 && offdiagCount n M > 0
       let kk := (if o.cplx then 4 else 1) * (2 * n + 8)
       let g := gamma kk dbl
-      let bad : Option Nat := if exact then eqArr xa xm n else residFail o n M xa b g
+      let bad : Option Nat := if exact then eqArr xa xm n else residFail o n M xa b g dbl
       match bad with
       | none => Res.ok nontriv (tags ++ [if exact then "certified" else "bound"]) (if exact then "exact" else "tolerance")
       | some i =>
@@ -173,7 +178,7 @@ def handleTrsv (o : Ops K) (c : Case) : Res :=
         let Ms := tabulate n (trsvMat F uplo tr false)
         let xs := spTrsv F uplo tr false b
         let stored : Bool := unit && uplo == UpLo.U &&
-          (if certSolve o P n Ms false xs b then (eqArr xa xs n).isNone else (residFail o n Ms xa b g).isNone)
+          (if certSolve o P n Ms false xs b then (eqArr xa xs n).isNone else (residFail o n Ms xa b g dbl).isNone)
         if stored then
           Res.propFalse s!"{call}: x solves op(U)x=b with the stored diagonal but diag=U selects the unit-diagonal system (row {i})" tags
         else if exact then
@@ -248,7 +253,8 @@ def handleGstrs (o : Ops K) (c : Case) : Res :=
         else
           let bad := (List.range n).find? fun i =>
             let r := (List.range n).foldl (fun acc k => acc - opA i k * xa.getD k default) (b.getD i default)
-            let bd := g1 * (List.range n).foldl (fun acc k => acc + opAa i k * o.mag (xa.getD k default)) 0 + g2 * o.mag (b.getD i default)
+            let bd := g1 * (List.range n).foldl (fun acc k => acc + opAa i k * o.mag (xa.getD k default)) 0 + g2 * o.mag (b.getD i default) +
+              uflow (16 * n + 32) dbl * (List.range n).foldl (fun acc k => acc + opAa i k) (1 : Rat)
             decide (o.cmax r > bd)
           match bad with
           | some i => (some s!"column {j}: residual of row {i} of op(A)X=B exceeds the backward-error bound", false)
@@ -296,7 +302,7 @@ def checkGemvVec (o : Ops K) (dbl : Bool) (what : String) (tr : Tr) (alpha beta 
         (if ya i == r then .ok ex else .error s!"{what}[{i}] differs from alpha*op(A)*x+beta*y on a rounding-free case")
       else
         let g := gamma ((if o.cplx then 4 else 1) * (terms.length + 4)) dbl
-        if o.cmax (ya i - r) > g * bd then .error s!"{what}[{i}] differs from alpha*op(A)*x+beta*y by more than the rounding bound"
+        if o.cmax (ya i - r) > g * bd + uflow (4 * terms.length + 16) dbl * (1 + o.mag alpha) then .error s!"{what}[{i}] differs from alpha*op(A)*x+beta*y by more than the rounding bound"
         else .ok false) (.ok true)
 
 end generic
